@@ -13,6 +13,7 @@ import (
 	"os"
 	"sort"
 	"strings"
+	"sync"
 
 	"golang.org/x/tools/go/ssa"
 )
@@ -52,6 +53,9 @@ func (o *Obligation) Name() string {
 }
 
 type Machine struct {
+	symCache      map[string][]string
+	qmu           sync.Mutex
+	smtRef        *SMT
 	prog          *ssa.Program
 	pkg           *ssa.Package
 	fset          *token.FileSet
